@@ -458,7 +458,9 @@ func (w *worker) tableState() (uint64, uint64, error) {
 
 	ctx, cancel := context.WithTimeout(context.Background(), w.logTimeout)
 	defer cancel()
-	idxRes, err := t.LeaderIndex(ctx, false)
+	// Read the index linearizably: a stale local read could miss commands this or the previous lease holder
+	// already proposed (slow apply, lagging replica) and they would be requested and applied a second time.
+	idxRes, err := t.LeaderIndex(ctx, true)
 	if err != nil {
 		return 0, 0, fmt.Errorf("could not get leader index key: %w", err)
 	}
